@@ -1,6 +1,8 @@
 package wh
 
 import (
+	"fmt"
+
 	"pgregory.net/rapid"
 )
 
@@ -69,7 +71,7 @@ func DrawConfig(t *rapid.T, label string, big bool) Config {
 
 // Opts tunes DrawAction.
 type Opts struct {
-	SrcErr bool // ReadFrom sources may end with an error instead of io.EOF
+	SrcErr bool // ReadFrom sources may end with a non-EOF error, or stall into io.ErrNoProgress, after their data
 	MaxLen int  // cap for "random" lengths (default 600)
 }
 
@@ -191,8 +193,13 @@ func DrawReadFrom(t *rapid.T, v View, pos int, o Opts) Action {
 		a.Zeros = rapid.SliceOfN(rapid.IntRange(0, 3), 1, 4).Draw(t, "readfrom.zeros")
 	}
 	a.EOFWithData = rapid.Bool().Draw(t, "readfrom.eofwithdata")
-	if o.SrcErr && rapid.IntRange(0, 5).Draw(t, "readfrom.srcerr") == 0 {
-		a.SrcErr = true
+	if o.SrcErr {
+		switch rapid.IntRange(0, 7).Draw(t, "readfrom.end") {
+		case 6:
+			a.SrcErr = true
+		case 7:
+			a.Stall = true
+		}
 	}
 	return a
 }
@@ -247,13 +254,13 @@ func DrawAction(t *rapid.T, v View, pos int, o Opts) Action {
 type Letter struct {
 	Kind string
 	Rel  string // "0" "nil" "1" "a-1" "a" "a+1" "2s+3" "s+1"
-	Src  int    // readfrom: 0 plain source, 1 one-byte chunks + (0,nil) reads + data with EOF
+	Src  int    // readfrom: 0 plain source, 1 one-byte chunks + (0,nil) reads + data with EOF, 2 non-EOF error after the data, 3 stall (io.ErrNoProgress) after the data
 }
 
 func (l Letter) String() string {
 	s := l.Kind + ":" + l.Rel
 	if l.Src != 0 {
-		s += "/src1"
+		s += fmt.Sprintf("/src%d", l.Src)
 	}
 	return s
 }
@@ -269,6 +276,10 @@ func Alphabet() []Letter {
 		a = append(a, Letter{Kind: KReadFrom, Rel: r})
 	}
 	a = append(a, Letter{Kind: KReadFrom, Rel: "a", Src: 1})
+	for _, r := range []string{"0", "1", "a-1", "a", "a+1", "2s+3"} {
+		a = append(a, Letter{Kind: KReadFrom, Rel: r, Src: 2})
+	}
+	a = append(a, Letter{Kind: KReadFrom, Rel: "1", Src: 3}, Letter{Kind: KReadFrom, Rel: "a", Src: 3})
 	for _, r := range []string{"0", "1", "s+1"} {
 		a = append(a, Letter{Kind: KThrough, Rel: r})
 	}
@@ -300,8 +311,13 @@ func (l Letter) Resolve(v View, pos int) Action {
 		a.Start, a.Len, a.Nil = pos, n, l.Rel == "nil"
 	case KReadFrom:
 		a.Start, a.Len = pos, n
-		if l.Src == 1 {
+		switch l.Src {
+		case 1:
 			a.Chunks, a.Zeros, a.EOFWithData = []int{1}, []int{1, 0, 2}, true
+		case 2:
+			a.SrcErr = true
+		case 3:
+			a.Stall = true
 		}
 	case KGrow:
 		a.N = n
